@@ -27,6 +27,7 @@
 #include <rime/gear/uniquifier.h>
 #include <iostream>
 #include <map>
+#include <set>
 #include <sstream>
 
 using namespace vh;
@@ -418,14 +419,12 @@ int api_mode(const std::string& work) {
       RimeCandidateListIterator it = {0};
       std::string items;
       size_t n = 0;
-      std::vector<std::string> seen;
+      std::set<std::string> seen;
       bool nodup = true;
       if (api->candidate_list_begin(fresh, &it)) {
         while (api->candidate_list_next(&it)) {
           items += " " + item_hex(it.index, it.candidate.text, it.candidate.comment);
-          std::string t = it.candidate.text;
-          for (auto& s : seen) if (s == t) nodup = false;
-          seen.push_back(t);
+          if (!seen.insert(it.candidate.text).second) nodup = false;
           ++n;
         }
         api->candidate_list_end(&it);
